@@ -33,8 +33,12 @@ def gen_def(rng):
         other.append({"name": "dep%d" % i, "pkg": rng.choice(["", "", "lib"]), "kind": rng.choice(["run_command", "run_experiment", "group"])})
     extra_task = rng.random() < 0.3
     insts = []
+    # instance names in an order that is NOT the lexicographic one (a power-of-two sweep 1, 2, 4, 8, 16; a descending
+    # sweep; mixed case): the expansion keeps the order in which the instances are written
+    numbering = rng.choice([list(range(6)), [1, 2, 4, 8, 16, 32], [32, 16, 8, 4, 2, 1], [10, 9, 100, 1, 20, 2], rng.sample(range(40), 6)])
+    style = rng.choice(["exp-%d", "exp-%d", "sweep_%d", "T%d"])
     for i in range(ninst):
-        d = {"name": "exp-%d" % i}
+        d = {"name": style % numbering[i]}
         if rng.random() < 0.6:
             d["args"] = [rng.choice(VALS) for _ in range(rng.randint(0, 3))]
         if rng.random() < 0.6:
